@@ -125,6 +125,14 @@ func runC07(c *Ctx) {
 				})
 			}
 			c.verdict(okN, c.nm(fn)+" | compensation truncates len(hdrs) records", c.P.Pos(fn.Pos()), "truncateHeaders(uint32(len(hdrs)))", "the compensating truncation does not remove exactly len(hdrs) records")
+			// the compensation removes records only when they were appended: it is
+			// reachable only after appendRaw succeeded (appendRaw repairs its own
+			// partial writes; cutting len(hdrs) records after a failed append
+			// would remove committed ones)
+			app := find(fn, callTo(c.hfs("headerStore", "appendRaw")))
+			c.guarded(fn, errNil("appendRaw", app, 0), 1, "truncateHeaders(len(hdrs))", find(fn, callTo(trunc)), 1, gDominate)
+			// and the index update itself happens only after a successful append
+			c.guarded(fn, errNil("appendRaw", app, 0), 1, "index update "+spec.idx.Name(), find(fn, callTo(spec.idx)), 1, gDominate)
 		}
 	})
 
